@@ -10,5 +10,6 @@ CONSTANTS
   BkRechecksLock = FALSE
   GcRechecksBands = TRUE
   CreateNewEnforced = FALSE
+  GcLoserRemovesLock = FALSE
 INVARIANTS NoLoss LockReleased
 CHECK_DEADLOCK FALSE
